@@ -339,7 +339,7 @@ class Evolver:
             # productions that once exposed a defect (kept as a standing floor)
             "message-no-typename", "rust-keyword-name", "base-regexp", "empty-struct-property", "request-no-typename",
             "matrix", "same-name-different-nullness", "shared-registration-method", "diamond",
-            "message-regopts-no-params", "explicit-closed-enum", "and-registration-options", "deep-mixin", "confusing-message-names", "exotic-enum-values", "message-map-keys", "marked-everything", "alias-shapes", "declares-response-error", "method-mentions-request", "literal-name-collision", "big-declarations", "case-only-names", "mutual-recursion", "digit-names", "substring-names"]
+            "message-regopts-no-params", "explicit-closed-enum", "and-registration-options", "deep-mixin", "confusing-message-names", "exotic-enum-values", "message-map-keys", "marked-everything", "alias-shapes", "declares-response-error", "method-mentions-request", "literal-name-collision", "big-declarations", "case-only-names", "mutual-recursion", "digit-names", "substring-names", "selection-range-additions", "short-names"]
     RUST_AND_PYTHON_KEYWORDS = ["in", "for", "as", "if", "else", "while", "continue", "break", "return", "async", "await", "try", "yield"]
 
     MATRIX_PRODUCTIONS = ["base", "ref-struct", "ref-enum", "ref-alias", "array", "map", "tuple", "ornull-first", "ornull-last", "literal",
@@ -536,6 +536,31 @@ class Evolver:
         if focus == "message-regopts-no-params":
             self.e_new_message(is_request=True, registration="own", params=False)
             return self.e_new_message(is_request=False, registration="own", params=False)
+        if focus == "selection-range-additions":
+            # SelectionRange is emitted by hand-written code in the rust plugin: new properties of the awkward kinds
+            sr = [s for s in self.doc["structures"] if s["name"] == "SelectionRange"]
+            if sr:
+                S_, N_ = {"kind": "base", "name": "string"}, {"kind": "base", "name": "null"}
+                adds = [{"name": "type", "type": S_, "optional": True},
+                        {"name": "vfOrigin", "type": {"kind": "reference", "name": "SelectionRangeParams"}, "optional": True},
+                        {"name": "vfNote", "type": {"kind": "or", "items": [S_, N_]}},
+                        {"name": "vfSiblings", "type": {"kind": "array", "element": {"kind": "reference", "name": "SelectionRange"}}, "optional": True}]
+                for p_ in adds:
+                    if all(q["name"] != p_["name"] for q in sr[0]["properties"]) and any(s["name"] == "SelectionRangeParams" for s in self.doc["structures"]):
+                        sr[0]["properties"].append(p_)
+                        self.edits.append({"edit": "E2-new-property", "structure": "SelectionRange", "property": p_["name"], "type": p_["type"], "optional": bool(p_.get("optional"))})
+            return
+        if focus == "short-names":
+            # structures and properties of three letters or fewer (name builders that drop short words)
+            L_ = lambda n: {"kind": "literal", "value": {"properties": [{"name": n, "type": {"kind": "base", "name": "string"}}]}}   # noqa: E731
+            for sname, pname in (("Vfa", "xyz"), ("Vb", "id"), ("VfShortInfo", "ab")):
+                if sname in self.taken_types:
+                    continue
+                self.taken_types.add(sname)
+                self.doc["structures"].append({"name": sname, "properties": [{"name": pname, "type": L_("vfA")}, {"name": "q", "type": {"kind": "base", "name": "uinteger"}, "optional": True}]})
+                self.new_structs.append(sname)
+                self.edits.append({"edit": "E1-new-structure", "name": sname, "properties": [pname, "q"]})
+            return
         if focus == "substring-names":
             # a structure with exactly one "special" property (null-admitting, or a string literal) and optional properties whose
             # names are parts of that property's name - in camelCase and, after the plugin's renaming, in snake_case
